@@ -169,6 +169,41 @@ def task_sw(ctx, cfg, which):
               config=dict(grid=grids.cfg_name(cfg), transform=which), scale_floor=1.0)
 
 
+def task_sw_trajectory(ctx, cfg, which, outer=2):
+  """A multi-step TRAJECTORY built by the library itself (shallow_water_leapfrog_trajectory: semi-implicit leapfrog, exponential and
+  Robert-Asselin filters, trajectory_from_step) commutes with the symmetry: every saved frame of the trajectory started from the transformed
+  pair of time levels is the transformed frame.  Both starting time levels are fully symbolic (degree-4 polynomial identities for 2 steps)."""
+  from dinosaur import shallow_water as sw, coordinate_systems as cs, layer_coordinates as lc, scales
+  grid = grids.make_grid(cfg)
+  nl = 1
+  coords = cs.CoordinateSystem(grid, lc.LayerCoordinates(nl))
+  specs = sw.ShallowWaterSpecs(densities=np.array([1.0]), radius=float(grid.radius), angular_velocity=1.0, gravity_acceleration=1.0, scale=scales.DEFAULT_SCALE)
+  base, zm = models.admissible_masks(grid)
+  rng = np.random.default_rng(17)
+  oro = rng.uniform(-0.3, 0.3, grid.modal_shape) * base
+  Ts, Tp = transforms(cfg, grid, which)
+  phi = np.array([1.3])
+  dt = 0.05
+  ctx.encoded(sw.shallow_water_leapfrog_trajectory, sw.shallow_water_leapfrog_step, sw.default_filters)
+
+  def traj(orog):
+    return sw.shallow_water_leapfrog_trajectory(coords, dt, specs, inner_steps=1, outer_steps=outer, mean_potential=phi, orography=orog,
+                                                filters=sw.default_filters(grid, dt), alpha=0.6)
+  t0_ = traj(oro); tt = traj(np.asarray(Ts(jnp.asarray(oro))))
+  ms = (nl,) + grid.modal_shape
+  sp = Space(bits=10 if outer <= 2 else 7)        # 3 frames: degree 8 polynomials in ~25 variables
+  b_ = np.broadcast_to
+  mk = lambda pre: [PolyArr.variables(sp, pre + 'v', ms, free=b_(zm, ms)), PolyArr.variables(sp, pre + 'd', ms, free=b_(zm, ms)), PolyArr.variables(sp, pre + 'p', ms, free=b_(base, ms))]
+  a0 = mk('a'); a1 = mk('b')
+
+  def both(v0, d0, p0, v1, d1, p1):
+    _, fr_t = tt((sw.State(Tp(v0), Ts(d0), Ts(p0)), sw.State(Tp(v1), Ts(d1), Ts(p1))))
+    _, fr = t0_((sw.State(v0, d0, p0), sw.State(v1, d1, p1)))
+    return (fr_t.vorticity, fr_t.divergence, fr_t.potential), (Tp(fr.vorticity), Ts(fr.divergence), Ts(fr.potential))
+  prove_close(ctx, 'trajectory_equivariant.shallow_water_leapfrog_with_filters', both, a0 + a1, sp,
+              config=dict(grid=grids.cfg_name(cfg), transform=which, frames=outer, dt=dt), scale_floor=1.0)
+
+
 def make_tasks(tier, seed):
   LS = models.level_sets(seed)
   cfg = dict(M=3, L=4, nlon=8, nlat=5)
@@ -185,7 +220,11 @@ def make_tasks(tier, seed):
   add(cfg, 'dy2', 'dry', 'rot1', 'euler'); add(cfg, 'dy2', 'dry', 'mirror', 'leapfrog')
   for c, w in ((cfg, 'rot1'), (cfg, 'mirror'), (cfgf, 'rot8'), (cfgf, 'mirror')):
     tasks.append(dict(name=f'sw-{grids.cfg_name(c)}-{w}', fn='task_sw', kw=dict(cfg=c, which=w)))
+  cfg2 = dict(M=2, L=3, nlon=5, nlat=4)
+  tasks.append(dict(name='sw-trajectory-rot2', fn='task_sw_trajectory', kw=dict(cfg=cfg2, which='rot2')))
+  tasks.append(dict(name='sw-trajectory-mirror-fast', fn='task_sw_trajectory', kw=dict(cfg=dict(cfg2, impl='fast', base=1), which='mirror')))
   if tier != 'quick':
+    tasks.append(dict(name='sw-trajectory-rot1-3frames', fn='task_sw_trajectory', kw=dict(cfg=cfg2, which='rot1', outer=3)))
     cfg4 = dict(M=4, L=5, nlon=12, nlat=6)
     add(cfg4, 'dy3', 'dry', 'rot5'); add(cfg4, 'dy3', 'dry', 'mirror'); add(cfg, 'dy3', 'moist', 'rot2', 'euler')
     add(cfge, 'dy3', 'dry', 'mirror'); add(cfgf, 'dy3', 'moist', 'mirror', 'leapfrog')
@@ -206,4 +245,4 @@ def main(tier='quick', seed=0, jobs=None, only=None, t0=None):
       bounds=dict(tasks=[t['name'] for t in tasks], state_box='[-1,1]', eps='1e-9 x max(coefficient mass, 1)', steps='one step of Euler pair / leapfrog, dt=0.05'),
       assumptions=['real-arithmetic semantics of the float64 IR', 'O(1) constants (unit_specs)'],
       trusted=['JAX tracing', 'dverif interpreter (validated each run)', 'z3/cvc5', 'mpmath trig constants'],
-      outside=['multi-step trajectories are covered by composition of the one-step identity (stated, not re-proved)', 'float rounding'])
+      outside=['multi-step trajectories of the primitive equations are covered by composition of the one-step identity (stated, not re-proved); shallow-water trajectories of 2 (3) frames are decided directly', 'float rounding'])
